@@ -1314,3 +1314,100 @@ pub fn unicode_width_stream(s: &mut crate::Session, r: &mut Rng, n: usize) -> u6
     }
     checks
 }
+
+// ------------------------------------------------------------------ fixed witnesses of the OPEN findings
+/// One minimal fixed history per open finding of known_findings.json that the shared screen oracle
+/// classifies, so that every quick run of a property that lists the finding exhibits it at every seed
+/// (`which`: "D22", "D17", "D28").  The model (Sys.v) follows the code on all of them: the cases are
+/// ordinary correspondence cases.
+///  - D22 `bottom-alignment-kept-rows-misplaced` (Coq: C02_kept_bottom_D22_refuted): Bottom alignment, a, b, c
+///    drawn; b.finish_and_clear() (one padding row on top of the region); a.finish(); drop(a): the reap keeps
+///    the blank padding row instead of a's final row; c.tick() shows it.
+///  - D17 `finished-bar-reaped-behind-the-cut` (Coq: C19_D17_reaped_behind_cut_witness): 3x2 terminal, a frame
+///    taller than the terminal, finished + dropped bars behind the height cut are reaped unpainted.
+///  - D28 `empty-line-after-text-only-draw-swallowed` (Coq: C01_empty_line_swallowed_refuted): finish_and_clear;
+///    println (text-only draw, cursor wrap-pending); suspend whose closure writes an EMPTY first line; println.
+pub fn finding_witnesses(which: &[&str]) -> Vec<Case> {
+    let timed = |ops: Vec<Op>| -> Vec<(u64, Op)> {
+        ops.into_iter().enumerate().map(|(i, o)| ((i as u64 + 1) * 1_000_000_000, o)).collect()
+    };
+    let hb = |tmpl: Vec<TPart>, len| BarInit { len, fin: Fin::AndLeave, tmpl, target: TInit::Hidden };
+    let one = |x: &str| vec![TPart::Lit(x.into())];
+    let mut out = vec![];
+    if which.contains(&"D22") {
+        let b = |c: &str| hb(vec![TPart::Lit(c.into()), TPart::Pos], Some(10));
+        out.push(Case {
+            w: 4,
+            h: 10,
+            fail_at: vec![],
+            fail_from: None,
+            mp: TInit::Term(None),
+            bars: vec![b("A"), b("B"), b("C")],
+            ops: timed(vec![
+                Op::SetAlign(true),
+                Op::Insert(Loc::End, 0),
+                Op::Insert(Loc::End, 1),
+                Op::Insert(Loc::End, 2),
+                Op::Tick(0),
+                Op::Tick(1),
+                Op::Tick(2),
+                Op::Finish(1, Fin::AndClear),
+                Op::Finish(0, Fin::AndLeave),
+                Op::Drop(0),
+                Op::Tick(2),
+            ]),
+        });
+    }
+    if which.contains(&"D17") {
+        out.push(Case {
+            w: 3,
+            h: 2,
+            fail_at: vec![],
+            fail_from: None,
+            mp: TInit::Term(None),
+            bars: vec![
+                hb(one("Z"), None),
+                hb(vec![TPart::Lit("P".into()), TPart::NewLine, TPart::Lit("p".into())], None),
+                hb(one("Q"), None),
+                hb(one("R"), None),
+            ],
+            ops: timed(vec![
+                Op::Insert(Loc::End, 0),
+                Op::Insert(Loc::End, 1),
+                Op::Insert(Loc::End, 2),
+                Op::Insert(Loc::End, 3),
+                Op::Tick(0),
+                Op::Tick(1),
+                Op::Tick(2),
+                Op::Tick(3),
+                Op::Drop(1),
+                Op::Drop(2),
+                Op::Remove(0),
+                Op::Tick(3),
+                Op::Tick(3),
+            ]),
+        });
+    }
+    if which.contains(&"D28") {
+        out.push(Case {
+            w: 5,
+            h: 10,
+            fail_at: vec![],
+            fail_from: None,
+            mp: TInit::Hidden,
+            bars: vec![BarInit {
+                len: Some(3),
+                fin: Fin::AndLeave,
+                tmpl: vec![TPart::Msg, TPart::NewLine, TPart::Pos, TPart::Lit("/".into()), TPart::Len],
+                target: TInit::Term(None),
+            }],
+            ops: timed(vec![
+                Op::Finish(0, Fin::AndClear),
+                Op::Println(0, "hello".into()),
+                Op::Suspend(0, vec!["".into()]),
+                Op::Println(0, "after".into()),
+            ]),
+        });
+    }
+    out
+}
